@@ -141,7 +141,14 @@ fn body(case: &AttrCase, ctx: &mut CaseCtx) -> PropResult {
         Err(e) => fail!("attr:layout-undecodable", "decoder written from docs/attributes.md rejects the blob: {}", e.0),
     }
     if !has_near_but_inexact(&case.entries) {
-        let reference = refattr::encode(&case.entries).map_err(|e| Fail::new("harness-encode", e.0))?;
+        // byte-exact against the document-derived encoding, entries taken in the order the crate chose
+        // (docs/attributes.md fixes no entry order)
+        let blob_order: Vec<String> = refattr::decode_map(&bytes).map(|m| m.into_iter().map(|(k, _)| k).collect()).unwrap_or_default();
+        let mut in_blob_order: Vec<(String, GVal)> = blob_order.iter().filter_map(|k| case.entries.iter().find(|(n, _)| n == k).cloned()).collect();
+        if in_blob_order.len() != case.entries.len() {
+            in_blob_order = case.entries.clone();
+        }
+        let reference = refattr::encode(&in_blob_order).map_err(|e| Fail::new("harness-encode", e.0))?;
         ensure!(reference == bytes, "attr:bytes-differ-from-document", "blob differs from the document-derived encoding\ncrate {:02x?}\ndoc   {:02x?}", bytes, reference);
     }
     // (3) foreign blobs (entries in any order) decode to the described values
